@@ -2,6 +2,7 @@
   C01 — Accepted messages are handled exactly once; rejected ones never.
 -/
 import Rsactor.Inv.Fifo
+import Rsactor.Inv.Progress
 import Rsactor.Inv.Stop
 import Rsactor.Inv.Rej
 import Rsactor.Inv.Time
@@ -115,6 +116,14 @@ example : ∃ s, run? (init 1 {})
      .timeoutFire 2] = some s ∧ Ev.ret 2 .timeout 5 ∈ s.ev ∧ (s.spec 2).kind = .tell := by
   refine ⟨_, rfl, ?_, ?_⟩ <;> decide
 
+
+/-- `accepted_message_is_not_left_waiting`: in a state in which the runtime has nothing left to run, no accepted message
+    sits in the mailbox of an idle actor: if the mailbox is not empty the actor has ended (then the mailbox is empty:
+    `C03.ended_clean`) or is inside a hook that waits for its own external event. -/
+theorem accepted_message_is_not_left_waiting (s : Sys) (hq : quiescent s) (hm : s.mbox ≠ []) :
+    s.pc = .ended ∨
+    (s.gatePermits = 0 ∧ (s.pc = .starting ∨ (∃ m k, s.pc = .inHandler m k) ∨ ∃ a b c, s.pc = .stopping a b c)) :=
+  quiescent_due_has_ended s hq (Or.inr (Or.inr hm))
 
 /-! ### ties to the source: shape lemmas about the tables regenerated from /repo on every run -/
 -- @tie Rsactor.Ties.send_paths_shape
